@@ -9,47 +9,13 @@
 (* a length bound, checks the definitional laws in every state and prints  *)
 (* one replay vector per state for the Rust side (agg-replay).             *)
 (***************************************************************************)
-EXTENDS Integers, Sequences, FiniteSets, TLC, Json, SequencesExt, FiniteSetsExt, Functions, Folds
+EXTENDS AggDefs, TLC, Json, Functions
 
 CONSTANTS Vals,      \* values fed to the aggregators
           MaxLen,    \* bound on the number of values
           PMilles    \* percentile arguments in 1/10 percent (0 .. 1000)
 
 VARIABLE fed
-
-Elems(s) == {s[i] : i \in DOMAIN s}
-
-SumSeq(s) == FoldSeq(LAMBDA x, acc : x + acc, 0, s)
-
-Sorted(s) == SortSeq(s, LAMBDA a, b : a < b)
-
-AggMin(s) == IF s = <<>> THEN <<>> ELSE << CHOOSE m \in Elems(s) : \A x \in Elems(s) : m <= x >>
-AggMax(s) == IF s = <<>> THEN <<>> ELSE << CHOOSE m \in Elems(s) : \A x \in Elems(s) : m >= x >>
-AggSum(s) == << SumSeq(s) >>
-AggCount(s) == << Len(s) >>
-\* mean as the exact rational <<numerator, denominator>>
-AggMean(s) == IF s = <<>> THEN <<>> ELSE << <<SumSeq(s), Len(s)>> >>
-AggNot(s) == IF s = <<>> THEN << <<>> >> ELSE <<>>
-
-Abs(x) == IF x < 0 THEN -x ELSE x
-
-(* percentile(p): an element of the input whose rank (0-based index in the  *)
-(* sorted input) is within one position of n*p/100; the end points are      *)
-(* exact: p = 0 is the minimum, p = 100 the maximum.                        *)
-PctAdmissible(s, pm) ==
-   LET n == Len(s)
-       srt == Sorted(s)
-   IN  IF n = 0 THEN {}
-       ELSE IF pm = 0 THEN {srt[1]}
-       ELSE IF pm = 1000 THEN {srt[n]}
-       ELSE { srt[i] : i \in { j \in 1..n : Abs((j - 1) * 1000 - n * pm) <= 1000 } }
-
-(* what the current implementation's rank convention gives when it is defined: *)
-(* index floor(n*p/100), clamped to the last element (diagnostic only)         *)
-PctFloorRank(s, pm) ==
-   LET n == Len(s)
-       i == (n * pm) \div 1000
-   IN  IF n = 0 THEN <<>> ELSE << Sorted(s)[IF i >= n THEN n ELSE i + 1] >>
 
 --------------------------------------------------------------------------------
 Init == fed = <<>>
